@@ -2,6 +2,7 @@
 use crate::rng::Rng;
 use std::collections::{BTreeMap, HashSet};
 
+pub mod c02;
 pub mod c04;
 pub mod c07;
 pub mod c11;
@@ -64,6 +65,7 @@ pub fn generate(prop: &str, tier: &str, g: &mut Gen) {
     let thorough = tier == "thorough";
     match prop {
         "C12" => c12::generate(g, thorough),
+        "C02" => c02::generate(g, thorough),
         "C03" => lang::generate_c03(g, thorough),
         "C04" => c04::generate(g, thorough),
         "C07" => c07::generate(g, thorough),
